@@ -1,12 +1,16 @@
 #!/bin/bash
-# Applies every seeded change under seeded/ to /repo in turn, runs the check of its property, undoes it.
-# Prints one line per change: CAUGHT / MISSED.  (Nothing else may use /repo while this runs.)
-cd /verif
+# Applies every seeded change under seeded/ to the repository in turn, runs the check of its property, undoes it.
+# Prints one line per change: CAUGHT / MISSED.  (Nothing else may use that repository while this runs.)
+# By default works on /verif and /repo; with REGRESS_ROOT=<dir> on a scratch copy laid out as <dir>/verif and
+# <dir>/repo (a git worktree of /repo; <dir>/verif/harness/Cargo.toml pointing at it), so that /repo stays free.
+V=${REGRESS_ROOT:+$REGRESS_ROOT/verif}; V=${V:-/verif}
+R=${REGRESS_ROOT:+$REGRESS_ROOT/repo}; R=${R:-/repo}
+cd $V || exit 2
 for d in ${@:-seeded/*/}; do
-  id=$(basename $d); prop=$(python3 -c "import json;print(json.load(open('$d/meta.json'))['property'])")
-  git -C /repo apply /verif/$d/patch.diff || { echo "$id PATCH-FAILED"; continue; }
+  id=$(basename $d); prop=$(python3 -c "import json;print(json.load(open('/verif/seeded/$id/meta.json'))['property'])")
+  git -C $R apply /verif/seeded/$id/patch.diff || { echo "$id PATCH-FAILED"; continue; }
   out=$(timeout 1500 bin/check $prop 2>&1 | grep -v WARNING | head -3)
-  git -C /repo checkout -- .
+  git -C $R checkout -- .
   if echo "$out" | grep -q "^VIOLATION property=$prop"; then echo "$id CAUGHT"; else echo "$id MISSED: $out"; fi
 done
-git -C /repo status --short | grep -v '^??'
+git -C $R status --short | grep -v '^??'
